@@ -1,6 +1,7 @@
 import MitmVerif.Model.C03
 import MitmVerif.Model.C03_Enc
 import MitmVerif.Model.C03_Inv
+import MitmVerif.Model.C03_Emit
 import Driver.Proto
 import Std.Data.HashMap
 import Std.Data.HashSet
@@ -79,23 +80,30 @@ def render (outs : List Out) : String :=
   let l := outs.filterMap outName
   if l.isEmpty then "-" else " ".intercalate l
 
-def stepLine (s : St) (line : String) : St × String :=
+/-- driver state: the model state, the emitter's phase, and whether every input so far was admissible -/
+structure DSt where
+  s : St := {}
+  rq : RqPhase := .none
+  adm : Bool := true
+
+def stepLine (d : DSt) (line : String) : DSt × String :=
+  let s := d.s
   match fields line with
   | ["reset", l, t] =>
     match l.toNat?, t.toNat? with
-    | some l, some t => (init l t, "ok")
-    | _, _ => (s, "bad-op")
+    | some l, some t => ({ s := init l t }, "ok")
+    | _, _ => (d, "bad-op")
   | ["end"] =>
     let c := s.core
-    (s, s!"live={b01 c.live} cs={csName c.cs} ss={ssName c.ss} pt={b01 c.pt} settled={b01 s.settled} bad={b01 c.bad} paused={b01 c.paused.isSome} streamed={b01 c.m.streamed} ws={b01 c.websocket}")
+    (d, s!"live={b01 c.live} cs={csName c.cs} ss={ssName c.ss} pt={b01 c.pt} settled={b01 s.settled} bad={b01 c.bad} paused={b01 c.paused.isSome} streamed={b01 c.m.streamed} ws={b01 c.websocket} adm={b01 d.adm}")
   | fs =>
     match parseEv fs with
-    | none => (s, "bad-op")
+    | none => (d, "bad-op")
     | some ev =>
       let n := s.outs.length
       let s' := step s ev
       -- the commands emitted by this call, oldest first
-      (s', render (s'.outs.drop n))
+      ({ s := s', rq := rqNext d.rq ev, adm := d.adm && enabled s d.rq ev }, render (s'.outs.drop n))
 
 -- ------------------------------------------------------------------------------------------------
 -- reachable abstract states (debug/certificate tool):  mv_c03 reach
@@ -266,4 +274,4 @@ def main (args : List String) : IO Unit :=
   | ["reach"] => C03Driver.reachMain
   | ["havoc"] => C03Driver.havocMain
   | ["checkinv"] => C03Driver.checkInvMain
-  | _ => runState C03Driver.stepLine (init 0 0)
+  | _ => runState C03Driver.stepLine {}
